@@ -71,15 +71,16 @@ func (g *BodyGen) Bytes() []byte {
 type Event func(ev map[string]any)
 
 type Server struct {
-	mu      sync.Mutex
-	routes  map[string][]Resp // key: host + uri
-	counts  map[string]int
-	gates   map[string]chan struct{}
-	emit    Event
-	lns     []net.Listener
-	srvs    []*http.Server
-	Hosts   []string // "127.0.0.2:port" per host index
-	Default Resp
+	mu       sync.Mutex
+	routes   map[string][]Resp // key: host + uri
+	counts   map[string]int
+	gates    map[string]chan struct{}
+	emit     Event
+	lns      []net.Listener
+	srvs     []*http.Server
+	Hosts    []string // "127.0.0.2:port" per host index
+	DelayAll int      // ms added to every response (slow site)
+	Default  Resp
 	// Dynamic, when set, answers URIs that have no static route (host index, uri, request number).
 	Dynamic func(h int, uri string, n int) *Resp
 }
@@ -191,6 +192,9 @@ func (s *Server) handle(host string, w http.ResponseWriter, r *http.Request) {
 		case <-r.Context().Done():
 			return
 		}
+	}
+	if s.DelayAll > 0 {
+		time.Sleep(time.Duration(s.DelayAll) * time.Millisecond)
 	}
 	if resp.DelayMS > 0 {
 		time.Sleep(time.Duration(resp.DelayMS) * time.Millisecond)
